@@ -101,6 +101,72 @@ type Case struct {
 	Barrier bool `json:"barrier,omitempty"`
 	// PreReg: the application has registered that many decorations of its own before any goroutine starts
 	PreReg int `json:"prereg,omitempty"`
+	// Widen > 0 (no Workers): that many rounds; in each round four goroutines, released together, each render a table of
+	// their own whose widest cell is wider than any the process has drawn so far (WidenFrom + round*WidenStep cells);
+	// every output must be a rectangle - an oracle that does not depend on what the process rendered earlier
+	Widen     int `json:"widen,omitempty"`
+	WidenFrom int `json:"widen_from,omitempty"`
+	WidenStep int `json:"widen_step,omitempty"`
+}
+
+func checkWiden(c Case) *ev.Violation {
+	for round := 0; round < c.Widen; round++ {
+		width := c.WidenFrom + round*c.WidenStep
+		const g = 4
+		outs := make([]string, g)
+		errs := make([]error, g)
+		var ready, done sync.WaitGroup
+		var gate int32
+		ready.Add(g)
+		done.Add(g)
+		for i := 0; i < g; i++ {
+			go func(i int) {
+				defer done.Done()
+				t := texttable.New()
+				t.AddRowItems(strings.Repeat("w", width+i))
+				t.AddRowItems("x")
+				ready.Done()
+				for atomic.LoadInt32(&gate) == 0 {
+				}
+				outs[i], errs[i] = t.Render()
+			}(i)
+		}
+		ready.Wait()
+		atomic.StoreInt32(&gate, 1)
+		done.Wait()
+		for i := 0; i < g; i++ {
+			if errs[i] != nil {
+				return ev.V("round %d (width %d), goroutine %d: render failed: %v", round, width, i, errs[i])
+			}
+			lines := strings.Split(strings.TrimRight(outs[i], "\n"), "\n")
+			first := len([]rune(lines[0]))
+			for n, l := range lines {
+				if len([]rune(l)) != first {
+					return ev.V("round %d (widest cell %d), goroutine %d: line %d of its table is %d characters wide, the first line %d: not a rectangle (ASCII content, one-cell glyphs)", round, width+i, i, n, len([]rune(l)), first)
+				}
+			}
+			if !strings.Contains(outs[i], strings.Repeat("w", width+i)) {
+				return ev.V("round %d, goroutine %d: its widest cell is not in its own output", round, i)
+			}
+		}
+	}
+	// and nothing lingers: every width up to the widest, rendered alone afterwards
+	for width := 1; width < c.WidenFrom+c.Widen*c.WidenStep+8; width++ {
+		t := texttable.New()
+		t.AddRowItems(strings.Repeat("w", width))
+		t.AddRowItems("x")
+		out, err := t.Render()
+		if err != nil {
+			return ev.V("after the concurrent rounds, width %d rendered alone: %v", width, err)
+		}
+		lines := strings.Split(strings.TrimRight(out, "\n"), "\n")
+		for n, l := range lines {
+			if len([]rune(l)) != len([]rune(lines[0])) {
+				return ev.V("after the concurrent rounds, a table with a widest cell of %d rendered alone: line %d is %d characters wide, the first line %d", width, n, len([]rune(l)), len([]rune(lines[0])))
+			}
+		}
+	}
+	return nil
 }
 
 // yieldWriter hands the processor over at every Write so that renders interleave.
@@ -205,6 +271,9 @@ func CheckCase(c Case) *ev.Violation {
 		ev.WriteCase(p+".running", ID, c, "the process died while this case was running (data race reported by the Go race detector, or a fatal runtime error)")
 		defer os.Remove(p + ".running")
 	}
+	if c.Widen > 0 {
+		return checkWiden(c)
+	}
 	ensureRegistered(c.PreReg)
 	var proto *tabular.Cell
 	if c.Proto > 0 {
@@ -279,6 +348,9 @@ func CheckCase(c Case) *ev.Violation {
 }
 
 func Classify(c Case) (bool, interface{}, []string) {
+	if c.Widen > 0 {
+		return true, nil, []string{"widening-tables-rendered-together"}
+	}
 	count := map[string]int{}
 	for _, w := range c.Workers {
 		seen := map[string]bool{}
